@@ -954,6 +954,51 @@ fn run() -> Result<usize, Failure> {
             n += f.len() + 3;
         }
     }
+    // Family 6 (C18): extended numbering on BOTH tables with the program header table in front of section header 0
+    // (e_phnum = 0xffff, e_shnum = 0; 65536 program headers, then shdr[0] carrying the real counts). A prefix that cuts
+    // into shdr[0] cannot know either count: it must not open with the escape values taken literally.
+    {
+        let phnum: usize = 65536;
+        let shoff = 52 + phnum * 32;
+        let mut f = vec![0u8; shoff + 40];
+        f[0..4].copy_from_slice(b"\x7fELF");
+        f[4] = 1; f[5] = 1; f[6] = 1;
+        f[16] = 2; f[18] = 3; f[20] = 1;
+        f[28..32].copy_from_slice(&52u32.to_le_bytes());
+        f[32..36].copy_from_slice(&(shoff as u32).to_le_bytes());
+        f[40..42].copy_from_slice(&52u16.to_le_bytes());
+        f[42..44].copy_from_slice(&32u16.to_le_bytes());
+        f[44..46].copy_from_slice(&0xffffu16.to_le_bytes());
+        f[46..48].copy_from_slice(&40u16.to_le_bytes());
+        for i in 0..phnum {
+            f[52 + 32 * i..52 + 32 * i + 4].copy_from_slice(&((i as u32 % 7) + 1).to_le_bytes());
+        }
+        f[shoff + 20..shoff + 24].copy_from_slice(&1u32.to_le_bytes());
+        f[shoff + 28..shoff + 32].copy_from_slice(&(phnum as u32).to_le_bytes());
+        let light = |b: &[u8]| -> Option<String> {
+            let e = ElfBytes::<AnyEndian>::minimal_parse(b).ok()?;
+            Some(format!("segments={:?} sections={:?} last segment={:?}", e.segments().map(|t| t.len()), e.section_headers().map(|t| t.len()),
+                e.segments().and_then(|t| t.get(t.len().saturating_sub(1)).ok())))
+        };
+        let label = "ELF32 image: 65536 program headers (e_phnum=0xffff) followed by section header 0 (e_shnum=0)";
+        match catch_unwind(AssertUnwindSafe(|| {
+            let whole = light(&f);
+            let mut cuts: Vec<usize> = (shoff.saturating_sub(2)..f.len()).collect();
+            cuts.extend([0usize, 16, 51, 52, 53, 52 + 32 * 65535, 52 + 32 * 65535 + 1]);
+            for n_ in cuts {
+                if let Some(a) = light(&f[..n_]) {
+                    if Some(&a) != whole.as_ref() {
+                        return Err(Failure(format!("C18 prefix of {n_} of {} bytes: open answers Ok({a}) but the complete file answers {:?} [{label}]", f.len(), whole)));
+                    }
+                }
+            }
+            Ok(())
+        })) {
+            Ok(r) => note(r),
+            Err(_) => note(Err(Failure(format!("C01/C18 open panicked on a prefix [{label}]")))),
+        }
+        n += 50;
+    }
     Ok(n)
 }
 
